@@ -45,18 +45,22 @@ theorem roundtrip (style : Style) (d : Decor) (hd : d.ok) (f : Forest) (ha : adm
     unfold parseTree
     rw [hc, hch]
     rfl
+  obtain ⟨b, hb⟩ := visSkip_endText [] (d (bodyLines style f)) rfl (hd _)
+  simp only [List.nil_append] at hb
   cases style with
   | brace =>
-    obtain ⟨hc, hch⟩ := parseNode_brace d hd f hok
+    obtain ⟨hc, hch⟩ := parseNode_brace d hd f hok _ b hb
     exact key _ hc hch
   | sep =>
     obtain ⟨hc, hch⟩ := parseNode_flat sectStyle_Sep (Style.desc .sep) 32 cfgS_desc (by decide) rfl d hd f hshape hok
+      _ b hb
     exact key _ hc hch
   | bar =>
     obtain ⟨hc, hch⟩ := parseNode_flat sectStyle_Bar (Style.desc .bar) 120 cfgBar_desc (by decide) rfl d hd f hshape hok
+      _ b hb
     exact key _ hc hch
   | enc =>
-    obtain ⟨hc, hch⟩ := parseNode_enc d hd f hok
+    obtain ⟨hc, hch⟩ := parseNode_enc d hd f hok _ b hb
     exact key _ hc hch
 
 /-- the full statement holds -/
@@ -94,27 +98,29 @@ theorem roundtrip_reread (style : Style) (d : Decor) (hd : d.ok) (f : Forest) (h
   simp only [Bool.and_eq_true] at ha
   obtain ⟨hok, hshape⟩ := ha
   have hclean : Clean [] ({ curr := curr } : St).path := ⟨rfl, rfl, rfl⟩
+  obtain ⟨b, hb⟩ := visSkip_endText [] (d (bodyLines style f)) rfl (hd _)
+  simp only [List.nil_append] at hb
   unfold parserRead
   cases style with
   | brace =>
-    obtain ⟨hc, hf⟩ := loop_brace d hd f hok { curr := curr } hclean rfl
-    simp only [styleCfg, render, hc, hf]
+    obtain ⟨hc, hf⟩ := loop_brace d hd f hok { curr := curr } hclean rfl _ b hb
+    simp only [styleCfg, render, renderBody, hc, hf]
     simp
   | sep =>
     obtain ⟨hc, hf⟩ := flat_claim sectStyle_Sep d hd f 0 ({} : Build) Flag.section_ { curr := curr }
-      { rest := renderFlat d [91] [93] 0 f } [] true hshape hok ⟨hclean, rfl, rfl, by simp⟩
-      (by simp [Mode, Flag.section_, Flag.sectEnd]) (Or.inl rfl)
-    simp only [styleCfg, render, hc, hf]
+      { rest := renderFlat d [91] [93] 0 f ++ endText (d (bodyLines .sep f)) } [] _ true b hshape hok hb
+      ⟨hclean, rfl, rfl, by simp⟩ (by simp [Mode, Flag.section_, Flag.sectEnd]) (Or.inl rfl)
+    simp only [styleCfg, render, renderBody, hc, hf]
     simp
   | bar =>
     obtain ⟨hc, hf⟩ := flat_claim sectStyle_Bar d hd f 0 ({} : Build) Flag.section_ { curr := curr }
-      { rest := renderFlat d [124] [] 0 f } [] true hshape hok ⟨hclean, rfl, rfl, by simp⟩
-      (by simp [Mode, Flag.section_, Flag.sectEnd]) (Or.inl rfl)
-    simp only [styleCfg, render, hc, hf]
+      { rest := renderFlat d [124] [] 0 f ++ endText (d (bodyLines .bar f)) } [] _ true b hshape hok hb
+      ⟨hclean, rfl, rfl, by simp⟩ (by simp [Mode, Flag.section_, Flag.sectEnd]) (Or.inl rfl)
+    simp only [styleCfg, render, renderBody, hc, hf]
     simp
   | enc =>
-    obtain ⟨hc, hf⟩ := loop_enc d hd f hok { curr := curr } hclean rfl
-    simp only [styleCfg, render, hc, hf]
+    obtain ⟨hc, hf⟩ := loop_enc d hd f hok { curr := curr } hclean rfl _ b hb
+    simp only [styleCfg, render, renderBody, hc, hf]
     simp
 
 /-! ### format descriptions that name their escape characters -/
@@ -148,6 +154,29 @@ theorem format_one_escape (q : UInt8) (hq : Parse.isspace q = false) :
   · subst h0; simp
   · have h00 : (c == 0) = false := by simp [h0]
     simp only [List.contains_cons, List.contains_nil, h00, Bool.or_false]
+
+/-! ### values of any length -/
+
+/-- `mpt_meta_new` keeps a value of every length byte for byte; up to 249 bytes in the basic metatype (text
+    behind the object), from 250 bytes on in the buffer metatype.  (The limits of the REAL representations —
+    8-bit size of the basic metatype, 16-bit fields — are not in M: that values of 249..257 and 65534..65537
+    bytes survive in the real code is shown by the correspondence run, which also compares the chosen
+    representation, op `p stat`.) -/
+theorem value_any_length (v : List UInt8) :
+    metaNew v = some v ∧ (metaRep v = .inline v ↔ v.length ≤ 249) ∧ (metaRep v = .buffer v ↔ 250 ≤ v.length) := by
+  refine ⟨by simp [metaNew], ?_, ?_⟩
+  · unfold metaRep
+    constructor
+    · intro h; split at h
+      · omega
+      · cases h
+    · intro h; rw [if_pos (by omega)]
+  · unfold metaRep
+    constructor
+    · intro h; split at h
+      · cases h
+      · omega
+    · intro h; rw [if_neg (by omega)]
 
 /-! ### known finding `dot-in-name`: outside `admissible`, inside the name flags -/
 
@@ -193,7 +222,7 @@ example : (parseTree .bar (render .bar (decorOf 1) [.node (str "o") (some (str "
   decide +kernel
 /-- a comment glued to the section name in the `|name` style -/
 example : render .bar (decorOf 4) [.node (str "s") none [.node (str "b") (some (str "1")) []]]
-    = str "|s# glued text\n\tb=1\n" := by decide +kernel
+    = str "|s# glued text\n\tb=1\n\t# t" := by decide +kernel
 example : (parseTree .bar (render .bar (decorOf 4) [.node (str "s") none [.node (str "b") (some (str "1")) []],
       .node (str "t") none [.node (str "c") none []]])).map (flat 0)
     = some [(0, str "s", none), (1, str "b", some (str "1")), (0, str "t", none), (1, str "c", none)] := by
@@ -204,11 +233,39 @@ example : (parseTree .enc (render .enc (decorOf 3) [.node (str "o") (some (str "
   decide +kernel
 /-- sections in the `{x}` format: `{name` … `}`, nested, comment glued to the name -/
 example : render .enc (decorOf 4) [.node (str "s") none [.node (str "b") (some (str "1")) []]]
-    = str "{s# glued text\n\tb=1\n}\t# t\n" := by decide +kernel
+    = str "{s# glued text\n\tb=1\n}\t# t\n\t# glued text" := by decide +kernel
 example : (parseTree .enc (render .enc (decorOf 4) [.node (str "s") none [.node (str "b") (some (str "1")) [],
       .node (str "t") none [.node (str "c") none []]], .node (str "o") (some (str "2")) []])).map (flat 0)
     = some [(0, str "s", none), (1, str "b", some (str "1")), (1, str "t", none), (2, str "c", none),
             (0, str "o", some (str "2"))] := by
+  decide +kernel
+/-- empty sections (`e`, `t`, and `q` inside `s`), CR LF line ends, form feed and vertical tab as blanks, text
+    behind the last element, a last line without line feed -/
+def sample2 : Forest :=
+  [.node (str "o") (some (str "1")) [], .node (str "e") none [],
+   .node (str "s") none [.node (str "b") (some (str "x y")) [], .node (str "q") (some []) []], .node (str "t") none []]
+example : (List.range 12).all (fun k => (decorOf 5 k).ok && (decorOf 6 k).ok) = true := by decide +kernel
+example : render .brace (decorOf 6) sample2
+    = str "o=1\ne{ # end\n# empty\n\t}\n\ns{\nb=x y # end\nq{\n# empty\n\t}#\n\n} # end\nt=\n#x" := by
+  decide +kernel
+example : render .sep (decorOf 5) sample2
+    = str "o\x0b=1\r\n\r\n# c\r\n\x0ce=\r \r\n\x0c[s]\r\nb=\r x y\r\n\x0cq\x0b=\r\n\r\n# c\r\n\x0c[t]\r\n\r" := by
+  decide +kernel
+example : (parseTree .brace (render .brace (decorOf 5) sample2)).map (flat 0) = some (flat 0 (norm sample2)) := by
+  decide +kernel
+example : (parseTree .brace (render .brace (decorOf 6) sample2)).map (flat 0) = some (flat 0 (norm sample2)) := by
+  decide +kernel
+example : (parseTree .sep (render .sep (decorOf 5) sample2)).map (flat 0) = some (flat 0 (norm sample2)) := by
+  decide +kernel
+example : (parseTree .bar (render .bar (decorOf 6) sample2)).map (flat 0) = some (flat 0 (norm sample2)) := by
+  decide +kernel
+example : (parseTree .enc (render .enc (decorOf 6) sample2)).map (flat 0) = some (flat 0 (norm sample2)) := by
+  decide +kernel
+/-- names beyond letters and digits: quotes, backslash, punctuation, control characters, high bytes -/
+example : nameOk (str "\"a'\\+b~") = true ∧ nameOk [1, 0x80, 0xff, 127] = true := by decide +kernel
+example : (parseTree .brace (render .brace (decorOf 2) [.node (str "\"a'\\+b~") (some (str "v")) [],
+      .node [1, 0x80, 0xff, 127] none [.node (str "$") none []]])).map (flat 0)
+    = some [(0, str "\"a'\\+b~", some (str "v")), (0, [1, 0x80, 0xff, 127], none), (1, str "$", none)] := by
   decide +kernel
 end examples
 
